@@ -89,6 +89,27 @@ theorem c17_iv_budget (s : State) (h : inv s = true) : clauseIVbudget s (post s)
       | some r => have := h1 r hnew; simp only [optAvail]; omega
 
 
+/-- **C17 (iv, spent)** with the availability budget computed from the *specs* used up (`old total + available new
+    pods ≤ replicas − maxUnavailable`), a sync never lowers the old ReplicaSets — for every state, stale statuses
+    included (this is the part of (iv) the unchanged code keeps even there). -/
+theorem c17_iv_spent (s : State) (h : inv s = true) : clauseIVspent s (post s) = true := by
+  unfold clauseIVspent
+  cases hsc : inScope s
+  · simp
+  · cases hb : decide (oldTotal s + optAvail s.new - minAvailable s ≤ 0)
+    · simp
+    · simp only [Bool.and_self, Bool.not_true, Bool.false_or, decide_eq_true_eq]
+      have hb' : oldTotal s + optAvail s.new - minAvailable s ≤ 0 := by simpa using hb
+      obtain ⟨nw, h1, h2, hc⟩ := post_summary s hsc
+      simp only [oldTotal, minAvailable] at *
+      rcases hc with ⟨rn, hn, ho, _⟩ | ⟨hn, ho, _⟩
+      · rw [ho]; exact Int.le_refl _
+      · rw [ho]
+        apply reconcileOld_spent s s.olds nw (inv_olds s h)
+        cases hnew : s.new with
+        | none => have := h2 hnew; rw [hnew] at hb'; simp only [optAvail] at hb'; omega
+        | some r => have := h1 r hnew; rw [hnew] at hb'; simp only [optAvail] at hb'; omega
+
 /- **C17 (iv), full strength** — `∀ s, inv s → clauseIV s (post s)` — is FALSE for the unchanged code:
    see `c17_iv_witness` (known finding C17-F2, guard `stale`). -/
 
